@@ -508,6 +508,9 @@ def synthetic_cases(ctx):
     if th:
         cases.append(gen_case(rng, 7, 4, "N7"))
         cases.append(gen_case(rng, 8, 3, "N8"))
+    else:
+        # one sparse high-degree case in the quick tier too: the 1/k! weights of the series are only exercised up to k = N - 1
+        cases.append(gen_case(rng, 8, 2, "N8-sparse", degrees=(3,)))
     # resonant frequencies (om1 = om2), vanishing hyperbolic rate (guard fires in the partial form)
     cases.append(gen_case(rng, 4, 6, "resonant", modes=(2.0, 1.0, 1.0)))
     cases.append(gen_case(rng, 5, 5, "resonant-1:2", modes=(1.5, 2.0, 1.0)))
@@ -606,6 +609,18 @@ def poly_check(real_dicts, exact=False, rel=REL):
                 return "%s: %s" % (name, msg)
         return None
     return check
+
+
+def factorial_check(ctx):
+    """the 1/k! weights of both Lie series come from polynomial/base.py::_factorial: exact integers for every order a series can reach"""
+    from hiten.algorithms.polynomial.base import _factorial
+    for n in range(0, 21):
+        ctx.case(("factorial", n), nontrivial=n >= 2, kind="factorial")
+        got = int(_factorial(n))
+        if got != math.factorial(n):
+            viol(ctx, "factorial:%d" % n, "_factorial(%d) = %d, expected %d: the Lie series weights 1/k! are wrong from order %d on (truncation degree N >= %d)" % (
+                n, got, math.factorial(n), n, n + 1), {"kind": "factorial", "n": n, "observed": got, "expected": math.factorial(n)})
+            return
 
 
 def corr_kernels(ctx, corr):
@@ -1045,6 +1060,7 @@ def run(ctx):
         ctx.lean_audit(PROPS, SRC)
         if ctx.thorough():
             ctx.leanchecker(PROPS)
+    factorial_check(ctx)
     cases = synthetic_cases(ctx)
     store = {}
     corr = Corr(ctx)
